@@ -1020,7 +1020,12 @@ def slice_with_int_dask_array_on_axis(x, idx, axis):
     # e.g. chunks=(..., (5, 3, 4), ...) -> offset=[0, 5, 8]
     offset = np.roll(np.cumsum(asarray_safe(x.chunks[axis], like=x._meta)), 1)
     offset[0] = 0
-    offset = from_array(offset, chunks=1)
+    # Use a name of its own: the declared chunks are tampered with below, and a
+    # user array with the same content (e.g. ``from_array([0], chunks=1)`` used as
+    # the index) would otherwise share the name but not the chunks.
+    offset = from_array(
+        offset, chunks=1, name="slice-offset-" + tokenize(x.chunks[axis])
+    )
     # Tamper with the declared chunks of offset to make blockwise align it with
     # x[axis]
     offset = Array(
